@@ -380,6 +380,7 @@ func specIsRejectErr(err error) bool { _, ok := err.(*RejectError); return ok }
 //@ ensures [err1]     zzCalls("hsms.(*ConnectionMetrics).incDataMsgErr") <= 1
 //@ ensures [errsend]  zzCalls("hsms.(*ConnectionMetrics).incDataMsgErr") == 1 ==> specIsData(msg) && result1 != nil && result0 == nil
 //@ ensures [reject]   zzCalls("hsms.(*ConnectionMetrics).incDataMsgInflight") == 1 && specIsRejectErr(result1) ==> zzCalls("hsms.(*ConnectionMetrics).incDataMsgErr") == 0
+//@ ensures [kind]     specIsData(msg) && msg.(*DataMessage).header[2]&0x80 != 0 && result1 == nil ==> specIsData(result0) && specRealMsg(result0)
 //@ ensures [reply]    result1 == nil && result0 != nil ==> zzCalls("hsms.(transport).Write") == 1 && zzCalls("hsms.(*ConnectionMetrics).incDataMsgErr") == 0
 
 //@ func (*connection).sendNoReply
@@ -490,3 +491,46 @@ func specBadData(stream, function byte, w bool, item secs2.Item) bool {
 //@ ensures [one]    zzCalls("hsms.(*connection).RouteReply") == 1 && zzRet[bool]("hsms.(*connection).RouteReply") ==> zzCalls("hsms.(*connection).RouteData") == 0
 //@ ensures [data]   zzCalls("hsms.(*connection).checkSessionID") == 0 && (len(frame) >= 10 && frame[4] == 0 && frame[5] == 0) &&
 //@                  !(zzCalls("hsms.(*connection).RouteReply") == 1 && zzRet[bool]("hsms.(*connection).RouteReply")) ==> zzCalls("hsms.(*connection).RouteData") == 1
+
+// ---- C06: reply correlation ----
+
+// specRealMsg: m is a message object (not nil, not an interface wrapping a nil pointer).
+func specRealMsg(m Message) bool {
+	switch t := m.(type) {
+	case *DataMessage:
+		return t != nil
+	case *ControlMessage:
+		return t != nil
+	}
+	return false
+}
+
+// zzChanInv_replyResult: what may travel on a reply channel — an error, or a real message. Proved at the only send
+// site (replyRegistry.route), assumed at every receive.
+func zzChanInv_replyResult(v replyResult) bool { return v.err != nil || specRealMsg(v.msg) }
+
+func zzArg[T any](name string, i int) T { panic("spec only") }
+
+//@ func (replyRegistry).route
+//@ nosafety nil-deref nil-iface
+//@ requires zzChanInv_replyResult(res)
+
+//@ func (*connection).RouteReply
+//@ nosafety nil-deref nil-iface
+//@ requires c != nil && specRealMsg(msg)
+//@ emits hsms.(replyRegistry).route
+//@ ensures [once]   zzCalls("hsms.(replyRegistry).route") <= 1
+//@ ensures [miss]   zzRet[*epoch]("atomic.Load:cur") == nil ==> !result && zzCalls("hsms.(replyRegistry).route") == 0
+//@ ensures [key]    zzCalls("hsms.(replyRegistry).route") == 1 && specIsData(msg) ==>
+//@                  zzArg[[4]byte]("hsms.(replyRegistry).route", 0) == [4]byte{msg.(*DataMessage).header[6], msg.(*DataMessage).header[7], msg.(*DataMessage).header[8], msg.(*DataMessage).header[9]} &&
+//@                  zzArg[replyResult]("hsms.(replyRegistry).route", 1).err == nil && zzArg[replyResult]("hsms.(replyRegistry).route", 1).msg == msg
+//@ ensures [reject] zzCalls("hsms.(replyRegistry).route") == 1 && specIsCtl(msg) && msg.(*ControlMessage).header[5] == 7 ==>
+//@                  specIsRejectErr(zzArg[replyResult]("hsms.(replyRegistry).route", 1).err) &&
+//@                  zzArg[replyResult]("hsms.(replyRegistry).route", 1).err.(*RejectError).Reason == msg.(*ControlMessage).header[3] &&
+//@                  zzArg[[4]byte]("hsms.(replyRegistry).route", 0) == [4]byte{msg.(*ControlMessage).header[6], msg.(*ControlMessage).header[7], msg.(*ControlMessage).header[8], msg.(*ControlMessage).header[9]}
+
+//@ iface Message.SystemBytes
+//@ dispatch *ControlMessage, *DataMessage
+
+//@ iface Message.HeaderBytes
+//@ dispatch *ControlMessage, *DataMessage
